@@ -59,12 +59,12 @@ def kf_holographic(doc, fmt, channel):
 
 
 def kf_md_bullet_after_subblock(doc, fmt, channel):
-    """F36: markdown, and some block has an Assignment child after a Block child."""
+    """F50: markdown, and some block has an Assignment child after a Block child."""
     return fmt == "markdown" and PD.has_assign_after_block(doc)
 
 
 def kf_cli_value_passthrough(doc, fmt, channel):
-    """F37: CLI copy of the converters: literal zone in json / yaml, any non-scalar value in markdown."""
+    """F51: CLI copy of the converters: literal zone in json / yaml, any non-scalar value in markdown."""
     if not channel.startswith("cli"):
         return False
     if fmt in ("json", "yaml"):
@@ -73,8 +73,9 @@ def kf_cli_value_passthrough(doc, fmt, channel):
 
 
 def kf_meta_nested_block(doc, fmt, channel):
-    """F38: META contains a nested block (a plain dict the converters do not descend into)."""
-    return fmt != "octave" and PD.has_meta_nested(doc)
+    """F52 (remainder after fix fd2ad16, which converts a nested META block for json / yaml): META contains a nested block and
+    the format is markdown (the dict repr is printed as one bullet instead of the fields below it)."""
+    return fmt == "markdown" and PD.has_meta_nested(doc)
 
 
 CLASSES = {f.__name__: f for f in (kf_section_skipped, kf_duplicate_keys, kf_holographic, kf_md_bullet_after_subblock,
